@@ -20,7 +20,7 @@ ITEMS = location_types() + budget_types() + error_types() + [
     dict(src=SAPHYR + 'scanner.rs', path='enum ScalarStyle', derive=COPY),
     dict(src='src/tags.rs', path='enum SfTag', derive='#[derive(Clone, Copy, PartialEq, Eq, Hash, Structural)]'),
     dict(src='src/options.rs', path='enum DuplicateKeyPolicy', derive=COPY),
-    dict(src=D, path='struct Cfg'),
+    dict(src=D, path='struct Cfg', derive='#[derive(Clone, Copy)]'),
     dict(src=D, path='enum Ev'),
     dict(src=D, path='impl Ev/fn location', props=['C16'],
          ensures=[('value', 'r == self.spec_location()')], canaries=['value']),
@@ -478,5 +478,29 @@ ITEMS = location_types() + budget_types() + error_types() + [
          loops={1: dict(header=r'^loop$', invariant=[
                     ('map_access_invariant', 'ma_inv_parts(self.pending@, self.merge_stack@, self.ev.rest()) && self.cfg == old(self).cfg')])},
          ),
+    dict(src=D, path=MA + 'impl de::MapAccess for MA/fn next_value_seed', id='MA::next_value_seed', impl_header="impl<'de, 'e> MA<'de, 'e>",
+         props=['C05', 'C16', 'C01'],
+         rewrites=[(r"fn next_value_seed<Vv>\(&mut self, seed: Vv\) -> Result<Vv::Value, Error>\s*where\s*Vv: de::DeserializeSeed<'de>,",
+                    'fn next_value_seed(&mut self, seed: ValSeed) -> Result<ValVal, Error>', 1, 'R9'),
+                   (r'let defined_location = replay\s*\.peek\(\)\?\s*\.map\(\|ev\| ev\.location\(\)\)\s*\.unwrap_or_else\(\|\| replay\.last_location\(\)\);',
+                    'let defined_location = (match replay.peek()? { Some(ev) => ev.location(), None => replay.last_location() });', 1, 'R18'),
+                   (r'let defined_location = self\s*\.ev\s*\.peek\(\)\?\s*\.map\(\|ev: &Ev\| ev\.location\(\)\)\s*\.unwrap_or_else\(\|\| self\.ev\.last_location\(\)\);',
+                    'let defined_location = (match self.ev.peek()? { Some(ev) => ev.location(), None => self.ev.last_location() });', 1, 'R18'),
+                   (r'let de = YamlDeserializer::new\(&mut replay, self\.cfg\);\s*seed\.deserialize\(de\)\.map_err\(\|e\| \{\s*attach_alias_locations_if_missing\(e, reference_location, defined_location\)\s*\}\)',
+                    'value_seed_on_replay(seed, &mut replay, self.cfg, reference_location, defined_location)', 1, 'R8+R18'),
+                   (r'let de = YamlDeserializer::new\(self\.ev, self\.cfg\);\s*seed\.deserialize\(de\)\.map_err\(\|e\| \{\s*attach_alias_locations_if_missing\(e, reference_location, defined_location\)\s*\}\)',
+                    'value_seed_on_live(seed, self.ev, self.cfg, reference_location, defined_location)', 1, 'R8+R18')],
+         ensures=[('C05:a_value_is_only_handed_out_after_its_key', '!old(self).have_key ==> r is Err && r->Err_0 is ValueRequestedBeforeKey && final(self).ev.rest() == old(self).ev.rest() && final(self).pending_value == old(self).pending_value'),
+                  ('C05:each_key_is_paired_with_exactly_one_value', 'old(self).have_key ==> !final(self).have_key && final(self).pending_value is None'),
+                  ('C05:a_buffered_value_is_read_from_exactly_its_recorded_events_and_the_live_cursor_stays', '''old(self).have_key && old(self).pending_value is Some ==>
+                        final(self).ev.rest() == old(self).ev.rest()
+                        && (r is Ok ==> r == value_seed_result(seed, old(self).pending_value->Some_0.0@, old(self).cfg, old(self).pending_value->Some_0.1,
+                                (if old(self).pending_value->Some_0.0@.len() > 0 { old(self).pending_value->Some_0.0@[0].spec_location() } else { Location::UNKNOWN })))'''),
+                  ('C05:a_live_value_is_read_at_the_untouched_cursor_with_the_next_node_as_definition_site', '''old(self).have_key && old(self).pending_value is None && r is Ok && old(self).ev.rest().len() > 0 ==>
+                        exists|rl: Location| r == #[trigger] value_seed_result(seed, old(self).ev.rest(), old(self).cfg, rl, old(self).ev.rest()[0].spec_location())'''),
+                  ('config_and_keys_untouched', 'final(self).cfg == old(self).cfg && final(self).seen == old(self).seen && final(self).pending == old(self).pending && final(self).merge_stack == old(self).merge_stack')],
+         proofs=[dict(before='let mut replay = ReplayEvents::with_reference(events, reference_location);', ghost=True, text='let ghost ev0 = events@;'),
+                 dict(after='let mut replay = ReplayEvents::with_reference(events, reference_location);', text='assert(replay.rest() =~= ev0); assert(ev0.skip(0) =~= ev0);')],
+         canaries=['C05:a_value_is_only_handed_out_after_its_key', 'C05:each_key_is_paired_with_exactly_one_value']),
 ]
 ITEMS = [x for x in ITEMS if x is not None]
